@@ -64,15 +64,15 @@ class CooperativeGP(Generic[a, b]):
         self.population1_size = population1_size
         self.population2_size = population2_size
         self.coevolutions = coevolutions
+        self.random = random or NativeRandomSource()
         self.representation1 = representation1 or TreeBasedRepresentation(
-            grammar=self.g1, decider=MaxDepthDecider(random, self.g1),
+            grammar=self.g1, decider=MaxDepthDecider(self.random, self.g1),
         )
         self.representation2 = representation2 or TreeBasedRepresentation(
-            grammar=self.g2, decider=MaxDepthDecider(random, self.g2),
+            grammar=self.g2, decider=MaxDepthDecider(self.random, self.g2),
         )
         self.kwargs1 = kwargs1 or {}
         self.kwargs2 = kwargs2 or {}
-        self.random = random or NativeRandomSource()
 
     def search(self) -> tuple[a, b]:
         @dataclass
